@@ -163,6 +163,44 @@ func stress(a *hx.Args, rng *mrand.Rand, res *hx.Result) {
 					}()
 				}
 			}
+			// one SignedAccumulator object asked for its accumulator by several goroutines at once (SaccMemoConc.tla), in each of the
+			// states it can be in: signed locally (memo intact), decoded and not verified yet (fresh), verified and then changed
+			// through the accumulator that was handed out (the issuer's idiom acc.Time = now; acc.Sign(sk)), field cleared
+			{
+				upd, err := revocation.NewAccumulator(kp.SK)
+				if err != nil {
+					hx.Fatal("NewAccumulator: %v", err)
+				}
+				want := *upd.SignedAccumulator.Accumulator
+				for _, state := range []string{"intact", "fresh", "tampered", "cleared"} {
+					sacc := upd.SignedAccumulator
+					if state != "intact" {
+						sacc = &revocation.SignedAccumulator{Data: upd.SignedAccumulator.Data, PKCounter: upd.SignedAccumulator.PKCounter}
+					}
+					if state == "tampered" || state == "cleared" {
+						acc, err := sacc.UnmarshalVerify(kp.PK)
+						if err != nil {
+							hx.Fatal("UnmarshalVerify: %v", err)
+						}
+						if state == "tampered" {
+							acc.Time += 1000
+						} else {
+							sacc.Accumulator = nil
+						}
+					}
+					for i := 0; i < 4; i++ {
+						wg.Add(1)
+						go func() {
+							defer wg.Done()
+							res.Eval("sacc-concurrent:" + state)
+							acc, err := sacc.UnmarshalVerify(kp.PK)
+							if err != nil || acc == nil || acc.Index != want.Index || acc.Time != want.Time || acc.Nu.Cmp(want.Nu) != 0 {
+								res.Violation("concurrent-unmarshalverify-wrong", fmt.Sprintf("UnmarshalVerify under concurrency on a %s object: err %v, accumulator %+v, signed %+v", state, err, acc, want), nil)
+							}
+						}()
+					}
+				}
+			}
 			seeds := make([]int64, G)
 			for i := range seeds {
 				seeds[i] = rng.Int63()
